@@ -75,7 +75,7 @@ func schemaCase(idx int, schemaText, instText []byte, reg strfmt.Registry) (enc.
 
 	run := func(oneShot bool) string {
 		out := ""
-		st, _ := guarded(10*time.Second, func() {
+		st, _ := guarded(30*time.Second, func() {
 			var s spec.Schema
 			if err := json.Unmarshal(schemaText, &s); err != nil {
 				out = "schemaerr"
